@@ -268,6 +268,28 @@ def _steps(tree):
     return {p: v for p, v in tree.items() if p.endswith("/selected_plate")}
 
 
+_PRE = {}
+
+
+def _pre_rounds(ctx, cfg, fs, pipeline, mod, mode, batch):
+    """the earlier, uninterrupted rounds: deterministic and the same on every explored path, so the in-memory file tree
+    they leave behind is computed once per worker process and copied afterwards (replay on the real filesystem runs them)"""
+    n = cfg.get("pre", 0)
+    if not n:
+        return
+    key = (cfg["name"], mode, batch, n)
+    if ctx.mode != "real" and key in _PRE:
+        nodes, launches, nruns = _PRE[key]
+        fs.nodes = dict(nodes)
+        pipeline.launches = list(launches)
+        pipeline.nruns = nruns
+        return
+    for _ in range(n):
+        _invoke(mod, mode, batch)
+    if ctx.mode != "real" and hasattr(fs, "nodes"):
+        _PRE[key] = (dict(fs.nodes), list(pipeline.launches), pipeline.nruns)
+
+
 def h_resume(ctx, cfg):
     mode, P = cfg["mode"], cfg["P"]
     batch = int(ctx.int("batch_size", 1, cfg["bmax"]))
@@ -280,8 +302,7 @@ def h_resume(ctx, cfg):
         p0.allow = cfg.get("pre", 0) * cfg["bmax"]
         m0 = _load_script(ctx, fs0, p0)
         # earlier, uninterrupted invocations (prospective mode: one round per invocation) - not subject to interruption
-        for _ in range(cfg.get("pre", 0)):
-            _invoke(m0, mode, batch)
+        _pre_rounds(ctx, cfg, fs0, p0, m0, mode, batch)
         fs0.ticks = 0
         _invoke(m0, mode, batch)
         total = fs0.ticks
@@ -328,8 +349,7 @@ def h_resume(ctx, cfg):
         log = []
         if cfg.get("pre", 0):
             saved_armed, fs.armed = fs.armed, False
-            for _ in range(cfg["pre"]):
-                _invoke(mod, mode, batch)
+            _pre_rounds(ctx, cfg, fs, pl, mod, mode, batch)
             fs.armed = saved_armed
             fs.ticks = 0
         try:
